@@ -12,6 +12,7 @@ class HistoryPart(Part):
     side = "client"
     clauses: t.Set[str] = set()
     steps = {QUICK: 40, THOROUGH: 80}
+    pending = False
     examples = {QUICK: 400, THOROUGH: 15000}
 
     def strategy(self, tier: str) -> t.Any:
@@ -27,7 +28,7 @@ class HistoryPart(Part):
         return []
 
     def check(self, case: t.Any, ctx: Ctx) -> t.List[Violation]:
-        tr = history.run_lockstep(self.side, case)
+        tr = history.run_lockstep(self.side, case, pending=self.pending)
         for e in set(tr.events):
             ctx.event(e)
         ctx.event("histories")
